@@ -532,6 +532,12 @@ def run_c(case):
         try:
             if kind % 2 == 0:
                 v.name = U.NAMES[vi % len(U.NAMES)]
+            elif v.is_initializer() and v.graph is not None:
+                # the same initializer is registered again (e.g. after its tensor was updated): allowed, changes nothing
+                if kind % 4 == 1:
+                    v.graph.register_initializer(v) if v.const_value is not None else v.graph.initializers.add(v)
+                else:
+                    v.graph.initializers[v.name] = v
         except Exception:
             pass
     u.sweep()
